@@ -835,7 +835,8 @@ pub fn c13(rec: &mut Rec, lm: &Landmarks, rng: &mut Rng, thorough: bool) {
         }
     }
     // all-numeric formats: well-formed sentences with every field valid, or one field at / past its limit
-    let numfmts = ["%Y-%m-%dT%H:%M:%S", "%Y-%jT%H:%M:%S", "%H:%M:%S %d/%m/%Y", "%Y %j", "%d.%m.%Y %H:%M", "%Y-%m-%d", "%Y/%m/%d %H:%M:%S.%f", "%j-%Y %M:%S"];
+    let numfmts = ["%Y-%m-%dT%H:%M:%S", "%Y-%jT%H:%M:%S", "%H:%M:%S %d/%m/%Y", "%Y %j", "%d.%m.%Y %H:%M", "%Y-%m-%d", "%Y/%m/%d %H:%M:%S.%f", "%j-%Y %M:%S",
+        "%Y-%m-%dT%H:%M:%S%z", "%Y-%m-%d %H:%M:%S %z", "%d/%m/%Y %H:%M%z"];
     for (fi, f) in numfmts.iter().enumerate() {
         for rep in 0..(if thorough { 400 } else { 40 }) {
             // field values: valid, then one of them replaced by a boundary value
@@ -861,7 +862,15 @@ pub fn c13(rec: &mut Rec, lm: &Landmarks, rng: &mut Rng, thorough: bool) {
                 }
                 _ => {}
             }
-            let s = f
+            // the offset of a format that ends in %z: valid, or its hours / minutes at or past their limit
+            let (mut oh, mut om) = (rng.below(24) as i64, rng.below(60) as i64);
+            match rep % 5 {
+                1 => oh = *rng.pick(&[23i64, 24, 25, 30, 59, 60, 99]),
+                2 => om = *rng.pick(&[59i64, 60, 61, 99]),
+                _ => {}
+            }
+            let f_z = f.replace("%z", &format!("{}{oh:02}:{om:02}", if rep % 2 == 0 { '+' } else { '-' }));
+            let s = f_z
                 .replace("%Y", &format!("{y:04}"))
                 .replace("%m", &format!("{mo:02}"))
                 .replace("%d", &format!("{d:02}"))
